@@ -1,9 +1,9 @@
 SPECIFICATION Spec
 CONSTANTS
-  Scripts <- MCScripts
-  Caps <- MCCaps
-  Files <- MCFiles
-  MaxK = 12
+  Scripts <- TinyScripts
+  Caps <- TinyCaps
+  Files <- TinyFiles
+  MaxK = 4
   Lossy = TRUE
-INVARIANTS TypeOK I_W3 I_Writer I_Buffer I_DevLog I_T1 I_T2 I_T3 I_Cut
+INVARIANTS TypeOK I_W3 I_Writer I_Buffer I_DevLog
 CHECK_DEADLOCK TRUE
